@@ -22,7 +22,7 @@ UNITS = ["util/json.c", "util/b64encode.c", "util/hexify.c", "util/humansize.c",
 # destination argument, length argument (None: see handler), kind
 COPY = {"memcpy": (0, 2, "len"), "memmove": (0, 2, "len"), "memset": (0, 2, "len"), "fgets": (0, 1, "len"), "strftime": (0, 1, "len"),
         "snprintf": (0, 1, "len"), "inet_ntop": (2, 3, "len"), "strcpy": (0, None, "str"), "hexify": (1, 2, "hex"),
-        "strncpy": (0, 2, "len"), "read": (1, 2, "len"), "recv": (1, 2, "len"), "fread": (0, None, "fread")}
+        "strncpy": (0, 2, "len"), "read": (1, 2, "len"), "recv": (1, 2, "len"), "fread": (0, None, "fread"), "insecure_memzero": (0, 1, "len")}
 
 
 
@@ -439,6 +439,8 @@ def j3(prog, rep, units=None):
     if units is None and n < 25:
         rep.defer_broken("J3: only %d bounded-copy sites found (>= 25 confirmed)" % n)
     # the serialised-address decoder: reads from the input are covered by the length tests
+    if "util/sock_util.c" not in prog.units or (units is not None and "util/sock_util.c" not in units):
+        return n
     f = prog.func("util/sock_util.c", "sock_addr_deserialize")
     fx = Facts(f).solve()
     B = ("v", f.params[0]["name"], f.params[0]["id"])
